@@ -108,6 +108,8 @@ def scenarios(prop, tier):
             S.append(("download-padded-17MiB-of-credit", [dict(name="r1", url="http://a.test/big1"), dict(name="r2", url="http://a.test/2")], dict(pad=255), {"big": 67000 * 4, "frame": 4}))
             S.append(("download-17MiB", [dict(name="r1", url="http://a.test/big1"), dict(name="r2", url="http://a.test/2")], dict(), {"big": 17 * 1024 * 1024 + 123}))
         else:
+            # 300 DATA frames of 4 bytes + 255 padding: the padding alone is more than the stream window
+            S.append(("download-padded-76KiB-of-credit", [dict(name="r1", url="http://a.test/big1"), dict(name="r2", url="http://a.test/2")], dict(pad=255), {"big": 300 * 4, "frame": 4}))
             S.append(("download-200KiB", [dict(name="r1", url="http://a.test/big1"), dict(name="r2", url="http://a.test/2")], dict(), {"big": 200 * 1024 + 7}))
     return S
 
